@@ -227,6 +227,17 @@ const letters = "abcdefghijklmnopqrstuvwxyz"
 
 // randHRP returns n characters over 33..126 without upper-case letters.
 func randHRP(r *rand.Rand, n int) string {
+	if r.Intn(12) == 0 { // a human-readable part an implementation may treat specially, if one has this length
+		var fit []string
+		for _, h := range bechscan.WellKnownHRPs {
+			if len(h) == n {
+				fit = append(fit, h)
+			}
+		}
+		if len(fit) > 0 {
+			return fit[r.Intn(len(fit))]
+		}
+	}
 	b := make([]byte, n)
 	mode := r.Intn(6)
 	for i := range b {
